@@ -141,3 +141,14 @@ fn(SS + "__isub__", cls="ASet", props=["C50"], types={"s": "set", "value": "v"},
             "implies(result is NotImplemented, contents(self.col) == old(contents(self.col)))",
             "implies(result is self, forall(lambda x: " + HV + " == (old(" + HV + ") and not (x in s))))", INJ],
    modifies=["contents(self.col)"])
+
+# ---- _AssociationDict.get / setdefault: `self[key]` is the call of __getitem__ (its contract)
+fn(D + "get", cls="ADict", props=["C50"],
+   ensures=["implies(dhas(self.col, __key), result is call(self.getter, dget(self.col, __key)))", "implies(not dhas(self.col, __key), result is default)"],
+   modifies=[])
+fn(D + "setdefault", cls="ADict", props=["C50"],
+   ensures=["dhas(self.col, key)", SAMEKEYS,
+            # an existing key keeps its intermediary object and the stored value is returned; a new key gets one carrying the default
+            "implies(old(dhas(self.col, key)), dget(self.col, key) is old(dget(self.col, key)) and result is call(self.getter, dget(self.col, key)))",
+            "implies(not old(dhas(self.col, key)), call(self.getter, dget(self.col, key)) is default and result is default)"],
+   modifies=["contents(self.col)"])
